@@ -151,6 +151,9 @@ func (fr *frame) run() {
 			panic(&abortSignal{kind: abortUnwind, msg: fmt.Sprintf("%s block %d", fr.fn.String(), b.Index)})
 		}
 		e.res.Blocks++
+		if e.res.Blocks&0xfff == 0 {
+			e.checkBudget()
+		}
 		var next *ssa.BasicBlock
 		for _, instr := range b.Instrs {
 			e.res.Instrs++
